@@ -80,6 +80,7 @@ class HalfPipe:
         self.fin_written = False
         self.fin_visible = False
         self.rst = False  # reader sees ECONNRESET
+        self.was_reset = False  # sticky: a reset was delivered on this pipe (the reader's getpeername() -> ENOTCONN, like TCP)
         self.fin_at: int | None = None  # deliver FIN after exactly this many bytes became visible, drop the rest
         self.rst_at: int | None = None
         self.total_written = 0
@@ -91,6 +92,7 @@ class HalfPipe:
         self.on_room: Callable[[], None] | None = None  # writer-side hook: the reader consumed bytes (room may have grown)
         self.visible_log: list[tuple[float, int]] = []  # (time, cumulative visible) for oracles
         self.stalled = False
+        self.rst_answered = False  # SimNet.first_write_after_fin_ok: the one write a closed peer's stack answered with RST
 
     # -------------------------------------------------- writer side
     def room(self) -> int:
@@ -107,10 +109,12 @@ class HalfPipe:
             self._schedule()
 
     def reset(self) -> None:
-        """abortive close by the writer: reader sees ECONNRESET, pending data discarded"""
+        """abortive close by the writer: what had not arrived yet is discarded (the writer's stack drops its send queue);
+        bytes that had already arrived stay readable and are delivered BEFORE the ECONNRESET (conformance self-test
+        s04c: real TCP and AF_UNIX both do this)"""
         self.flight.clear()
-        self.rx.clear()
         self.rst = True
+        self.was_reset = True
         self._notify()
 
     # -------------------------------------------------- delivery
@@ -187,6 +191,7 @@ class HalfPipe:
         if rst:
             self.flight.clear()
             self.rst = True
+            self.was_reset = True
             self.world.fault("rst_at")
             self.world.log("rst", self.name)
         self._notify()
@@ -338,6 +343,10 @@ class SimSocket(socket.socket):
             raise f
         if self.peername is None or (self._type == socket.SOCK_STREAM and not self.connected):
             raise _oserr(errno.ENOTCONN)
+        if self.net.getpeername_enotconn_after_reset and self.rx_pipe is not None and self.rx_pipe.was_reset:
+            # opt-in, faithful Linux TCP: a socket that received RST is in state CLOSE; getpeername() fails from then on
+            # (also for a connection that was reset while it sat in the accept queue).  Conformance self-test s08 / s11.
+            raise _oserr(errno.ENOTCONN)
         return self.peername
 
     def getsockopt(self, level: int, optname: int, buflen: int | None = None):
@@ -448,6 +457,16 @@ class SimSocket(socket.socket):
         p = self.rx_pipe
         if p is None:
             raise _oserr(errno.ENOTCONN)
+        if n == 0:
+            # a zero-length read never blocks on Linux (TCP and AF_UNIX return b"" at once); conformance self-test s02
+            self._count(False)
+            return b""
+        if p.rx and not self.rd_shutdown:
+            # bytes that arrived before a reset are delivered first (the receive queue survives the RST)
+            data = p.read(n)
+            self._count(True)
+            self.net.after_read(p)
+            return data
         if p.rst:
             p.rst = False
             p.fin_visible = True
@@ -501,7 +520,23 @@ class SimSocket(socket.socket):
             e, self.so_error = self.so_error, 0
             raise _oserr(e)
         if p.reader_closed:
+            rxp = self.rx_pipe
+            if rxp is not None and rxp.rst:
+                # TCP keeps ONE pending error for both directions: a reset that recv() has not reported yet is reported
+                # (and consumed) by this send as ECONNRESET; later sends get EPIPE, later recvs b"" (conformance s04b)
+                rxp.rst = False
+                rxp.fin_visible = True
+                self._count(True)
+                raise _oserr(errno.ECONNRESET, ConnectionResetError)
+            if self.net.first_write_after_fin_ok and not p.rst_answered and not (rxp is not None and rxp.was_reset):
+                # opt-in, faithful TCP: the first write after the peer's clean close() is accepted (the bytes are lost, the
+                # peer's stack answers RST); only later writes fail.  Default off: see the comment below.
+                p.rst_answered = True
+                self._count(True)
+                self.world.log("send", self.label, total, "lost")
+                return total
             # peer closed: first write is accepted by a real kernel and answered by RST; model directly as EPIPE/ECONNRESET
+            # (documented deviation of the conformance self-test, scenario s07)
             self._count(True)
             raise _oserr(errno.ECONNRESET if self.net.closed_peer_errno == errno.ECONNRESET else errno.EPIPE, ConnectionResetError if self.net.closed_peer_errno == errno.ECONNRESET else BrokenPipeError)
         if total == 0:
@@ -662,6 +697,12 @@ class SimNet:
         self.unrouted: list[tuple] = []
         self.dgram_log: list[tuple] = []  # (time, src, dst, data) actually delivered to a socket queue
         self.rst_on_close_with_unread = True
+        # opt-in: real TCP accepts the FIRST write after the peer's clean close() (bytes lost), later writes get EPIPE.
+        # Default False = the dead peer is reported on the first write (what the property checks were written against).
+        self.first_write_after_fin_ok = False
+        # opt-in: Linux getpeername() -> ENOTCONN on a TCP socket that received RST.  Default False: harness callbacks
+        # (props/c15.py) identify a connection by getpeername() at any time; C17 injects this ENOTCONN through a fault plan.
+        self.getpeername_enotconn_after_reset = False
 
     # -------------------------------------------------- creation
     def new_socket(self, family: int = socket.AF_INET, type: int = socket.SOCK_STREAM, proto: int = 0, label: str = "") -> SimSocket:
